@@ -90,7 +90,7 @@ def run(ck):
     if traces:
         with open(traces[0]) as f:
             ck.sample({"first_record": json.loads(next(f))})
-    ck.assumptions += ["a malformed packet is one the session layer lets through (rtp.ReadPacket accepts its RTP header); RTP headers it refuses are covered by C14's fault cases",
+    ck.assumptions += ["at the media level a malformed packet is one the session layer lets through (rtp.ReadPacket accepts its RTP header); frames it cannot use (unknown channel, empty, header too short) are sent over a live publishing connection in the session leg, after which the stream must go on relaying",
                        "random RTCP bytes that happen to form a well-formed sender report (PT 200, 20 bytes or more) are excluded: a report with an arbitrary clock is not malformed; its effect on presentation times is the C06 known finding",
                        "HLS after the injection is judged on H.264 streams (the server produces HLS for H.264 + AAC only); good groups of pictures are 6 s apart so that every key frame closes a segment",
                        "what a depacketiser emits for the malformed packet itself (nothing, or a unit that C06 would reject) is not judged here, only the good data that follows",
